@@ -675,6 +675,13 @@ def _extreme(is_min):
             st.assume(c.Forall(0, a.shape[0], lambda i: le(m, a.elem((i,)))))
             wi = c.fresh('argext', INT)
             st.assume(wi >= 0, wi < to_int(a.shape[0]), m == a.elem((wi,)))
+            # the same facts over a NAMED copy of the elements: a[i] is a pure expression (often with arithmetic in its
+            # index), which gives the solver nothing to match instances against; el(i) does
+            el = z3.Function('el!%d' % next(c._fresh), INT, REAL if a.kind == 'real' else INT)
+            qi = c.fresh('qe')
+            rng_ = z3.And(0 <= qi, qi < to_int(a.shape[0]))
+            st.assume(z3.ForAll([qi], z3.Implies(rng_, z3.And(el(qi) == a.elem((qi,)), le(m, el(qi)))), patterns=[el(qi)]))
+            st.trace.append(('ghost', ('extreme', m, wi, a, el)))   # ghost: value, attaining index, array, named elements
         elif a.ndim == 2:
             st.assume(c.Forall2((0, a.shape[0]), (0, a.shape[1]), lambda i, j: le(m, a.elem((i, j)))))
             wi, wj = c.fresh('argext', INT), c.fresh('argext', INT)
@@ -1069,7 +1076,13 @@ def _searchsorted(ex, st, args, kwargs, node):
     st.assume(r >= 0, r <= to_int(n))
     st.assume(c.Forall(0, r, lambda j: lt(a.elem((j,)))))
     st.assume(c.Forall(r, n, lambda j: z3.Not(lt(a.elem((j,))))))
-    c.__dict__.setdefault('ss_results', []).append(r)      # ghost: the results, in call order (witnesses for contracts)
+    # the same facts over a NAMED copy of the elements (see _extreme): gives instances something to match
+    el = z3.Function('el!%d' % next(c._fresh), INT, REAL if a.kind == 'real' else INT)
+    qi = c.fresh('qs')
+    st.assume(z3.ForAll([qi], z3.Implies(z3.And(0 <= qi, qi < to_int(n)),
+                                         z3.And(el(qi) == a.elem((qi,)), (qi < r) == lt(el(qi)))), patterns=[el(qi)]))
+    st.trace.append(('ghost', ('searchsorted', r)))         # ghost: the result on this path (a witness contracts may name)
+    st.trace.append(('ghost', ('searchsorted_elements', el)))
     return r
 
 
